@@ -294,6 +294,41 @@ def _placeholder_picture(prs, m, tmp):
             (lambda p2, b: _descr_of_pics(p2.slides[0].part.blob)), [m + ".png"])
 
 
+def _renamed_placeholder(kind):
+    """A placeholder renamed by the caller (public `name` setter), then populated with insert_picture / insert_table /
+    insert_chart: the new shape takes the placeholder's name, which must survive as data. The table / chart
+    placeholder is obtained harness-side by retyping the first content placeholder of the 'Two Content' layout
+    (set-up only; the verdict reads the public name of the new shape and the saved package)."""
+    def fn(prs, m, tmp):
+        if kind == "picture":
+            slide = _blank(prs, 8)
+            ph = [p for p in slide.placeholders if hasattr(p, "insert_picture")][0]
+        else:
+            lay = _layout(prs, 3)
+            lph = [p for p in lay.placeholders if p.placeholder_format.idx == 1][0]
+            lph._element.xpath(".//p:nvPr/p:ph")[0].set("type", {"table": "tbl", "chart": "chart"}[kind])
+            slide = prs.slides.add_slide(lay)
+            ph = [p for p in slide.placeholders if p.placeholder_format.idx == 1][0]
+            if not hasattr(ph, "insert_" + kind):
+                raise HarnessError("retyped placeholder is a %s without insert_%s" % (type(ph).__name__, kind))
+        ph.name = m
+        if kind == "picture":
+            new = ph.insert_picture(io.BytesIO(_png()))
+        elif kind == "table":
+            new = ph.insert_table(2, 2)
+        else:
+            from pptx.chart.data import CategoryChartData
+            from pptx.enum.chart import XL_CHART_TYPE
+            cd = CategoryChartData()
+            cd.categories = ["a", "b"]
+            cd.add_series("s", (1, 2))
+            new = ph.insert_chart(XL_CHART_TYPE.PIE, cd)
+        sid = new.shape_id
+        return ((lambda: new.name),
+                (lambda p2, b: [sh.name for sh in p2.slides[0].shapes if sh.shape_id == sid][0]), m)
+    return Sink("placeholder.name->insert_%s shape-name" % kind, fn)
+
+
 def _movie_file(prs, m, tmp):
     path = os.path.join(tmp, m + ".mp4")
     shutil.copyfile(fixtures.MOVIE, path)
@@ -560,6 +595,8 @@ def catalogue(thorough):
     out.append(_picture_file("slide"))
     out.append(_picture_file("group"))
     out.append(Sink("insert_picture.file-name->descr", _placeholder_picture, ok=lambda m: _file_ok(m, ".png")))
+    for kind in ("picture", "table", "chart"):
+        out.append(_renamed_placeholder(kind))
     out.append(Sink("add_movie.file-name->shape-name", _movie_file, ok=lambda m: _file_ok(m, ".mp4")))
     out.append(Sink("add_movie.mime_type->content-type", _movie_mime))
     out.append(Sink("hyperlink.address/shape-click", _hyperlink_click))
